@@ -294,6 +294,16 @@ def rule_casts(run):
                     other_ = "_rhs" if side_ == "_lhs" else "_lhs"
                     foreign = [src(g.test)[:60] for g in vh.parents.ancestors(a) if isinstance(g, ast.If) and g is not n and any(x is a for x in ast.walk(g)) and other_ in src(g.test) and any(x is g for x in ast.walk(n))]
                     run.ob(not foreign, "vhdl.BinOp.write[CONCAT]", file=vh.rel, line=a.lineno, detail=f"{side_[1:]}-independent", expected=f"the conversion of {side_[1:]} does not depend on the other operand", found="ok" if not foreign else f"only if {foreign}")
+            # the two operands are treated alike: the guard of one side is the guard of the other with the operand swapped
+            guards = {}
+            for a in walk_local(n):
+                if isinstance(a, ast.Assign) and len(a.targets) == 1 and isinstance(a.value, ast.Attribute) and a.value.attr == "bitvector":
+                    side_ = "lhs" if "_lhs" in src(a.targets[0]) else "rhs"
+                    gs = [g for g in vh.parents.ancestors(a) if isinstance(g, ast.If) and g is not n and any(x is a for b in g.body for x in ast.walk(b)) and any(x is g for x in ast.walk(n))]
+                    guards[side_] = " and ".join(src(g.test) for g in gs[::-1])
+            if "lhs" in guards and "rhs" in guards:
+                mirrored = guards["lhs"].replace("_lhs", "_rhs")
+                run.ob(mirrored == guards["rhs"], "vhdl.BinOp.write[CONCAT]", file=vh.rel, line=n.lineno, detail="guards-mirror", expected=f"rhs converted under `{mirrored}` (same test as lhs)", found=guards["rhs"][:100])
             for side in ("lhs", "rhs"):
                 key = f"self._{side}.result"
                 ok = sides.get(key) == key
@@ -457,7 +467,12 @@ def rule_cleanup(run):
     c08.rule_cleanup(run)         # an operator result that is still read (through any view) keeps its computation
 
 
-RULES = [rule_rows, rule_hops, rule_tokens, rule_exhaustive, rule_casts, rule_flags, rule_siblings, rule_widths, rule_intarith, rule_ext, rule_castmatrix, rule_tracer_tables, rule_resize, rule_views, rule_alias, rule_backend_sites, rule_cleanup]
+def rule_ctor_domain(run):
+    from . import c09
+    c09.rule_ctor_domain(run)   # an int operand becomes a Signed/Unsigned constant only when representable (no silent wrap)
+
+
+RULES = [rule_rows, rule_hops, rule_tokens, rule_exhaustive, rule_casts, rule_flags, rule_siblings, rule_widths, rule_intarith, rule_ext, rule_castmatrix, rule_tracer_tables, rule_resize, rule_views, rule_alias, rule_backend_sites, rule_cleanup, rule_ctor_domain]
 
 LEVEL = "other"
 EXPLANATION = (
